@@ -5,6 +5,7 @@ stripe model (a disturbance sampled by every channel with its own ADC delay), a 
 recomputation for the grouped filters, and the product identity for gain control.
 """
 import numpy as np
+from pathlib import Path
 import scipy.signal
 
 from vlib import gen_signal as GS
@@ -20,7 +21,7 @@ RULE = ("stripes: random band-limited (500-6000 Hz AP, 20-200 Hz LF) waveforms o
 ASSUMPTIONS = ["thresholds are the ones the property states: attenuation <= -40 dB on the central two thirds w.r.t. the high-passed input; spike keeps "
                ">= 90 % of its high-passed, re-aligned amplitude on its peak channel", "a 'few neighbouring channels' = the 7 nearest sites with a Gaussian footprint of sigma 0.4-0.7 site pitches (retention falls "
                "smoothly with footprint width: measured 0.94-0.97 in that range, 0.89-0.91 at sigma 1.0-1.3, which is no longer 'a few channels')", "grouped filters are compared with per-group calls using default padding on both sides"]
-REQUIRED = {"default_header_checked": 2, "labels_true_checked": 2, "labels_true_with_bad_channels": 2, "stripe_attenuations": 8, "spike_retentions": 8, "outside_checked": 6, "car_zero_reference": 10, "group_equals_separate": 20,
+REQUIRED = {"default_header_checked": 2, "adc_tables_checked": 40, "labels_true_checked": 2, "labels_true_with_bad_channels": 2, "stripe_attenuations": 8, "spike_retentions": 8, "outside_checked": 6, "car_zero_reference": 10, "group_equals_separate": 20,
             "agc_products": 20, "referencing_through_destripe": 16, "settings_through_destripe": 4, "lfp_forwarding_checked": 3, "file_headers_checked": 4, "few_channel_arrays": 4, "fk_grouped_with_padding": 4, "file_pipeline_batches": 4, "file_pipeline_spikes": 10}
 CASE_TIMEOUT = 120.0
 KINDS = ["3B2", "NP2.1", "NP2.4", "NPultra"]
@@ -48,6 +49,7 @@ def gen_cases(seed, tier):
     cases += [{"cls": "file-header", "kind": ["3B2", "NP2.1", "NP2.4", "NP2.4-split", "NP2.4-split", "3B2"][j % 6], "seed": seed * 1000 + 400 + j, "_w": 3} for j in range(6 if tier == "quick" else 120)]
     cases += [{"cls": "file-pipeline", "kind": ["3B2", "NP2.1"][j % 2], "seed": seed * 1000 + 700 + j, "_w": 8} for j in range(2 if tier == "quick" else 16)]
     cases += [{"cls": "through-destripe", "kind": KINDS[j % 4], "seed": seed * 1000 + 300 + j, "_w": 2} for j in range(8 if tier == "quick" else 240)]
+    cases.append({"cls": "adc-table", "seed": seed * 1000 + 900, "_w": 1})
     cases += [{"cls": "agc", "seed": seed * 1000 + j, "n": 6, "_w": 1} for j in range(n)]
     return cases
 
@@ -512,6 +514,42 @@ def run_case(case):
             except Exception as e:
                 res.exception("fk:exception", e, f"{label} btype={btype}")
             sigs.add(("groups", nc, ng))
+    elif cls == "adc-table":
+        # the ADC delay table for recordings that do not hold 384 channels (legacy 276-channel exports, saved subsets): a channel's
+        # delay depends on its number and the generation only - judged against the wiring rule written out here (round 19)
+        import neuropixel
+        import spikeglx
+        for ver, per, ncyc in ((1, 12, 13), ("NPultra", 12, 13), (2, 16, 16), (2.1, 16, 16), (2.4, 16, 16)):
+            for nc in [276, 301, 384, 96, 192] + [int(v) for v in rng.integers(1, 385, 4)]:
+                k = np.arange(nc)
+                want_adc = (k // (2 * per)) * 2 + k % 2
+                want_ss = ((k // 2) % per) / ncyc
+                try:
+                    ss, adc = neuropixel.adc_shifts(version=ver, nc=nc)
+                    res.check(np.shape(ss) == (nc,) and np.allclose(ss, want_ss, atol=1e-12) and np.array_equal(np.asarray(adc, dtype=int), want_adc), "adc-table:channel-count",
+                              f"adc_shifts(version={ver!r}, nc={nc}): delays / ADC numbers are not those of channels 0..{nc - 1} "
+                              f"(first difference at channel {int(np.argmax(~np.isclose(ss, want_ss))) if np.shape(ss) == (nc,) else '?'})", counter="adc_tables_checked")
+                except Exception as e:
+                    res.exception("adc-table:exception", e, f"adc_shifts({ver!r}, {nc})")
+        # and through a header: a 276-channel legacy recording read from its metadata
+        try:
+            from vlib import gen_meta as G
+            rec = G.make(rng, "3A", n=276, ns=10)
+        except Exception:
+            rec = None
+        if rec is not None:
+            try:
+                import tempfile
+                with tempfile.TemporaryDirectory() as td:
+                    mf = Path(td) / "legacy_g0_t0.imec.ap.meta"
+                    mf.write_text(rec.meta_text)
+                    h = spikeglx.geometry_from_meta(spikeglx.read_meta_data(mf))
+                res.count("adc_tables_checked")
+                k = np.arange(276)
+                res.check(np.allclose(h["sample_shift"], ((k // 2) % 12) / 13, atol=1e-12), "adc-table:channel-count", "geometry_from_meta of a 276-channel 3A header: delays are not those of channels 0..275")
+            except Exception as e:
+                res.exception("adc-table:exception", e, "276-channel 3A header")
+        sigs.add("adc-table")
     elif cls == "agc":
         for _ in range(case["n"]):
             nc = int(rng.integers(1, 40))
